@@ -612,6 +612,64 @@ def yield_(ex, st, th, a):
     return 0
 
 
+
+# ---------------------------------------------------------------- time (symbolic: a timed wait may time out at any moment)
+@model('_ZNSt6chrono3_V212steady_clock3nowEv', '_ZNSt6chrono3_V212system_clock3nowEv')
+def clock_now(ex, st, th, a):
+    t = st.flags.get('clock', 1000000000) + 1000000
+    st.flags['clock'] = t
+    return t
+
+
+@model('clock_gettime')
+def clock_gettime(ex, st, th, a):
+    t = st.flags.get('clock', 1000000000) + 1000000
+    st.flags['clock'] = t
+    p = ex.need_int(st, a[1])
+    ex.store(st, p, t // 1000000000, 8)
+    ex.store(st, p + 8, t % 1000000000, 8)
+    return 0
+
+
+@model('pthread_cond_clockwait', 'pthread_cond_timedwait')
+def cond_timedwait(ex, st, th, a):
+    """the environment decides: either the wait times out right away (ETIMEDOUT, mutex still held), or it behaves
+    like an untimed wait.  Both are explored."""
+    from symex import ForkSignal
+    cv = ex.need_int(st, a[0])
+    m = ex.need_int(st, a[1])
+    key = 'tw:%d' % st.steps
+    choice = st.flags.get('timedwait_choice')
+    if choice is None:
+        o = st.fork()
+        o.flags['timedwait_choice'] = 'timeout'
+        st.flags['timedwait_choice'] = 'block'
+        raise ForkSignal([st, o])
+    del st.flags['timedwait_choice']
+    st.flags['timed_waits'] = st.flags.get('timed_waits', 0) + 1
+    if choice == 'timeout' and st.flags.get('timeouts', 0) < 3:
+        st.flags['timeouts'] = st.flags.get('timeouts', 0) + 1
+        # time has passed: the clock is now behind the deadline
+        ap = ex.need_int(st, a[3] if len(a) > 3 else a[2])
+        sec = ex.need_int(st, ex.load(st, ap, 8))
+        nsec = ex.need_int(st, ex.load(st, ap + 8, 8))
+        dl = sec * 1000000000 + nsec
+        if st.flags.get('clock', 0) <= dl:
+            st.flags['clock'] = dl + 1000
+        return 110
+    if st.flags.get('probe'):
+        st.flags['blocked_cv'] = cv
+        ti = ex.prog.sym_addr('@_ZTI9VpBlocked')
+        o = ex.new_obj(st, 16, 'heap', 'VpBlocked')
+        o.kind = 'exc'
+        o.data = [0] * 16
+        st.excs[o.base] = [ti, 1]
+        return ex.throw(st, th, o.base, ti)
+    _unlock(ex, st, th, m)
+    ex.block(st, th, 'cv', cv)
+    th.relock = m
+    return 0
+
 # ---------------------------------------------------------------- harness intrinsics
 def _fresh(ex, st, name, w, kind='in'):
     if ex.concolic_tape is not None and st.cmodel is not None:
@@ -803,6 +861,28 @@ def vp_live_heap(ex, st, th, a):
 @model('vp_check_leaks')
 def vp_check_leaks(ex, st, th, a):
     lk = [o for o in ex.leaks(st) if o.tag != 'thread_state']
+    if lk:
+        # blocks still reachable from static storage are not leaks (function-local statics, caches)
+        bases = {o.base for o in lk}
+        reach = set()
+        work = [o for o in st.objs.values() if o.kind == 'global' and not o.ro]
+        seen = set()
+        while work:
+            o = work.pop()
+            if o.base in seen:
+                continue
+            seen.add(o.base)
+            d = o.data
+            for i in range(0, len(d) - 7, 8):
+                c = d[i:i + 8]
+                try:
+                    v = int.from_bytes(bytes(c), 'little')
+                except (TypeError, ValueError):
+                    continue
+                if v in bases and v not in reach:
+                    reach.add(v)
+                    work.append(st.objs[v])
+        lk = [o for o in lk if o.base not in reach]
     if lk:
         desc = ', '.join('%s %dB' % (o.name, o.size) for o in lk[:6])
         ex.violations.append(Violation('leak', '%d heap block(s) not freed: %s' % (len(lk), desc),
